@@ -11,7 +11,7 @@ MANIFEST = {
                  "correspondence (extracted OCaml vs Go: Size, Encode, EncodeSW) + failing-input search on every node of every "
                  "decoded tree (all registered box types) and on files / init segments / media segments / fragments",
     "level_text": "PROOF for the modelled universe (coq/c02/C02Theorems.v): C02_leaf (bytes written = Size() for ftyp styp free "
-                  "skip mdat mfhd tfhd tfdt trun mvhd tkhd sidx trex mdhd hdlr stts, all versions and flag sets), C02_tree (at "
+                  "skip mdat mfhd tfhd tfdt trun mvhd tkhd sidx trex mdhd hdlr stts stsc stsz stco co64 stss sdtp ctts elst saiz saio sbgp prft tenc frma vmhd smhd nmhd sthd mfro mehd tfra pssh, all versions and flag sets), C02_tree (at "
                   "EVERY node of a tree of those leaves, pure containers and unknown boxes: the encoder succeeds, writes size_box "
                   "bytes, and the size field it writes is size_box; container = 8 + sum of children, also under the moov child "
                   "re-ordering), C02_encode_w / C02_encode_sw (both encode paths, conditional on success) and C02_encode_ok (they "
